@@ -563,7 +563,7 @@ fn immut_block<T: Real + Elem>(ctx: &mut Ctx, lens: &[usize]) {
     }
 }
 
-pub fn run_c15(ctx: &mut Ctx) {
+pub fn run_c15(ctx: &mut Ctx) -> usize {
     let (n_max, s_max) = if crate::ctx::light() {
         // unoptimised build (a write through a pointer derived from the shared input slice is undefined behaviour that an
         // optimised build may simply drop): small lengths, where every kernel and every helper variant is reached
@@ -590,6 +590,7 @@ pub fn run_c15(ctx: &mut Ctx) {
             }
         }
     }
+    item
 }
 
 #[allow(dead_code)]
